@@ -73,6 +73,10 @@ CORNERS = {
          "post|s1|r1 emit|s1|r1 cut|p.s1.r1 emit|s1|r1 get|g1|s1|r1|1 emit|s1|r1 cut|g1 emit|s1|r1 get|g2|s1|r1|3 ret|s1|r1"),
         ("failed-replay-of-finished-stream", (True, False, False), {"s1": True},
          "post|s1|r1 emit|s1|r1 cut|p.s1.r1 emit|s1|r1 ret|s1|r1 gateW|g1 get|g1|s1|r1|0 cut|g1 open get|g2|s1|r1|0 get|g3|s1|r1|2"),
+        ("purge-during-replay", (True, False, False, 520), {"s1": False},
+         "post|s1|r1 emit|s1|r1 cut|p.s1.r1 emit|s1|r1 emit|s1|r1 emit|s1|r1 gateM|g1 get|g1|s1|r1|0 sa|s1 sa|s1 sa|s1 open emit|s1|r1 ret|s1|r1"),
+        ("purge-during-replay-2", (True, False, False, 700), {"s1": True, "s2": False},
+         "post|s1|r1 emit|s1|r1 cut|p.s1.r1 emit|s1|r1 emit|s1|r1 gateM|g1 get|g1|s1|r1|1 post|s2|r1 emit|s2|r1 emit|s2|r1 sa|s2 open emit|s1|r1 ret|s1|r1 ret|s2|r1"),
         ("held-response-vs-resume", (True, False, False), {"s1": True},
          "post|s1|r1 emit|s1|r1 cut|p.s1.r1 gateA|s1|r1 ret|s1|r1 get|g1|s1|r1|0 open get|g2|s1|r1|1"),
         ("conflict-then-resume", (True, False, False), {"s1": False},
@@ -117,12 +121,14 @@ CORNERS = {
 # scenario construction
 
 
-def mk_scenario(sid, store, js, stateless, prime, steps, rnd):
+def mk_scenario(sid, store, js, stateless, prime, steps, rnd, maxbytes=0):
     sess = []
     for name in sorted(prime):
         sess.append({"name": name, "version": VERS_PRIME if prime[name] else rnd.choice(VERS_NOPRIME)})
-    return {"id": sid, "cfg": {"store": bool(store), "json": bool(js), "stateless": bool(stateless)},
-            "sessions": sess, "steps": steps}
+    cfg = {"store": bool(store), "json": bool(js), "stateless": bool(stateless)}
+    if maxbytes:
+        cfg["maxbytes"] = maxbytes
+    return {"id": sid, "cfg": cfg, "sessions": sess, "steps": steps}
 
 
 def steps_of_hist(hist):
@@ -301,8 +307,10 @@ def simulate_scenarios(v, cfgname, num, depth, seed, rnd, prefix):
 
 def corner_scenarios(pid, rnd):
     out = []
-    for name, (store, js, stateless), prime, text in CORNERS[pid]:
-        out.append(mk_scenario("corner-" + name, store, js, stateless, prime, steps_of_hist(text.split()), rnd))
+    for name, cfg, prime, text in CORNERS[pid]:
+        store, js, stateless = cfg[:3]
+        out.append(mk_scenario("corner-" + name, store, js, stateless, prime, steps_of_hist(text.split()), rnd,
+                               maxbytes=(cfg[3] if len(cfg) > 3 else 0)))
     return out
 
 
@@ -421,11 +429,13 @@ def judge(v, pid, obs, rows, scen_by_id):
 
 def strict(v, rows, skip, limit=None, rnd=None):
     """Strict validation against StreamSrv.tla (binding / drift). Traces with a forced DELETE (`delf`: session
-    termination while handlers run is not modelled), with a failed setup or a panic are skipped."""
+    termination while handlers run is not modelled), with a bounded event store (purging is C20's model), with a
+    failed setup or a panic are skipped."""
     tr = vlib.split_traces(rows)
     keep = []
     for tid, s, t in tr:
-        if tid in skip or any(x.get("ev") in ("panic", "setup.error") or (x.get("ev") == "step" and x.get("op") == "delf") for x in t):
+        if tid in skip or t[0].get("maxbytes") or \
+                any(x.get("ev") in ("panic", "setup.error") or (x.get("ev") == "step" and x.get("op") == "delf") for x in t):
             continue
         keep.append((tid, t))
     if limit and len(keep) > limit:
